@@ -715,6 +715,10 @@ def a_cover(eng, label):
     eng.sites_reached[site] = eng.sites_reached.get(site, 0) + 1
 
 
+def a_concretize(eng, x):
+    return eng.concretize_int(x, "api.concretize")
+
+
 def a_is_symbolic(eng, x):
     return deep_sym(x)
 
@@ -787,7 +791,7 @@ def install(eng):
         math.floor: m_floor, math.ceil: m_ceil, math.trunc: m_trunc,
         api.assume: a_assume, api.nondet_bool: a_nondet_bool, api.nondet_int: a_nondet_int,
         api.nondet_bv: a_nondet_bv, api.nondet_bytes: a_nondet_bytes, api.cover: a_cover,
-        api.is_symbolic: a_is_symbolic,
+        api.is_symbolic: a_is_symbolic, api.concretize: a_concretize,
     })
     for name in ("log", "log10", "log2", "pow", "sqrt", "exp", "isnan", "isinf", "isfinite", "modf", "copysign", "fabs"):
         M[getattr(math, name)] = m_unmodelled(name)
